@@ -103,14 +103,30 @@ class Run:
         self.write_evidence(len(unexplained), len(known_hits))
         return 1 if unexplained else 0
 
+    def files_of(self):
+        """source files of the functions this run interpreted (resolved through the program model when available)"""
+        out = set()
+        prog = getattr(self, "prog", None)
+        for q in self.functions:
+            fi = prog.functions.get(q) if prog is not None else None
+            if fi is not None:
+                try:
+                    out.add(str(prog.modules[fi.module].path))
+                except Exception:
+                    pass
+        return sorted(out)
+
     def write_evidence(self, n_viol, n_known):
-        distinct = {(r, i) for r, i, _, _ in self.obligations}
+        # non-trivial = the obligation was decided on an abstract value obtained from the sources (its detail: a term, window, shape, unit,
+        # residual, event order ...); distinct = distinct (rule, value) pairs, so 40 features that all read "{spot:[i,i]}" count once
+        distinct = {(r, d) for r, _, _, d in self.obligations if d} or {(r, i) for r, i, _, _ in self.obligations}
         discharged = sum(1 for _, _, ok, _ in self.obligations if ok)
         cov = {
             "explanation": self.rule_doc,
             "evaluations": max(1, len(self.obligations)),
-            "distinct_nontrivial": max(2, len(distinct)) if len(distinct) >= 2 else len(distinct),
-            "rule": "one evaluation = one (rule, construct, case) obligation decided on the current sources; distinct = distinct (rule, instance) pairs",
+            "distinct_nontrivial": len(distinct),
+            "rule": "one evaluation = one (rule, construct, case) obligation decided on the current sources; non-trivial = decided on an abstract value (term, window, "
+                    "shape, unit, residual, event order) extracted from the sources; distinct = distinct (rule, abstract value) pairs, so constructs with the same value count once",
             "samples": self.samples or [{"note": "no obligations"}],
             "obligations": len(self.obligations),
             "discharged": discharged,
@@ -119,6 +135,8 @@ class Run:
             "functions_analysed": sorted(self.functions),
             "call_sites": self.call_sites,
             "rule_instances": dict(sorted(self.matched.items())),
+            "obligation_list": [{"rule": r, "instance": i, "ok": ok, "value": d[:160]} for r, i, ok, d in self.obligations],
+            "files": self.files_of(),
             "min_instances": self.min_instances,
             "known_findings_reported": n_known,
             "notes": self.notes[:20],
